@@ -106,6 +106,25 @@ static const unsigned char *ref_G (int m, int k, int n)
 	return Gcache[slot];
 }
 
+static char g_seq_tag[96];
+static void rs_point (const pt_t *p);
+/* sequences of Reed-Solomon encoder sessions that share (k, n-k) but not the field or the codec, back to back in one process
+ * (anything a session keeps for the next one - a cached generator, a table - is keyed at least by what differs here) */
+static void rsseq_point (const pt_t *q)
+{
+	static const int ORD[4][5][2] = {	/* (field: 4 = codec 2 m=4, 8 = codec 2 m=8, 1 = codec 1; r offset) */
+		{{4, 0}, {8, 0}, {1, 0}, {8, 0}, {4, 0}}, {{8, 0}, {4, 0}, {1, 0}, {4, 0}, {8, 0}}, {{1, 0}, {4, 0}, {8, 0}, {1, 0}, {0, 0}}, {{4, 0}, {8, -1}, {1, -1}, {8, 0}, {4, -1}}};
+	int o = q->prefix, i;
+	for (i = 0; i < 5; i++) {
+		pt_t p = *q; int f = ORD[o][i][0], r = q->r + ORD[o][i][1];
+		if (!f || r < 1) continue;
+		p.codec = f == 1 ? 1 : 2; p.m = f == 1 ? 8 : f; p.r = r; p.n = p.k + r; p.prefix = 0; p.slotmode = 0;
+		snprintf (g_seq_tag, sizeof g_seq_tag, "rsseq k=%d r=%d order=%d step=%d", q->k, q->r, o, i);
+		rs_point (&p);
+	}
+	g_seq_tag[0] = 0;
+}
+
 static void rs_point (const pt_t *p)
 {
 	int k = p->k, n = p->n, len = p->len, m = p->codec == 1 ? 8 : p->m, i, j, mode;
@@ -115,7 +134,8 @@ static void rs_point (const pt_t *p)
 	const unsigned char *G;
 	char sig[200];
 	const char *cn = p->codec == 1 ? "rs28" : (p->m == 4 ? "rs2m4" : "rs2m8");
-	snprintf (g_case, sizeof g_case, "rs codec=%d m=%d k=%d n=%d len=%d align=%d", p->codec, p->m, k, n, len, p->prefix & 7);
+	if (g_seq_tag[0]) snprintf (g_case, sizeof g_case, "%s (at codec=%d m=%d k=%d n=%d)", g_seq_tag, p->codec, p->m, k, n);
+	else snprintf (g_case, sizeof g_case, "rs codec=%d m=%d k=%d n=%d len=%d align=%d", p->codec, p->m, k, n, len, p->prefix & 7);
 	memcpy (vf_slot (), g_case, sizeof g_case);
 	G = ref_G (m, k, n);
 	/* the reference generator itself must be n-independent: checked once per k by comparing a fresh (k,n) one */
@@ -810,7 +830,7 @@ static void item (long it, void *arg)
 	(void) arg;
 	vf_slot_set_prop (PROP);
 	if (vf_deadline_hit ()) { static int said; if (!said) { said = 1; vf_incomplete ("deadline reached at point %ld of %ld", it, NPT); } return; }
-	if (PT[it].slotmode == 8) refmds_point (&PT[it]); else if (PT[it].slotmode >= 9) both_point (&PT[it]); else if (PT[it].codec == 5) p2d_point (&PT[it]); else if (PT[it].codec == 3) ldpc_point (&PT[it]); else rs_point (&PT[it]);
+	if (PT[it].slotmode == 7 && PT[it].codec == 2) rsseq_point (&PT[it]); else if (PT[it].slotmode == 8) refmds_point (&PT[it]); else if (PT[it].slotmode >= 9) both_point (&PT[it]); else if (PT[it].codec == 5) p2d_point (&PT[it]); else if (PT[it].codec == 3) ldpc_point (&PT[it]); else rs_point (&PT[it]);
 	vf_stat_add (st_states, 1);
 }
 
@@ -822,6 +842,7 @@ static void item_replay (long it, void *arg)
 	vf_slot_set_prop (PROP);
 	memset (&p, 0, sizeof p);
 	if (sscanf (cs, "rs codec=%d m=%d k=%d n=%d len=%d align=%d", &p.codec, &p.m, &p.k, &p.n, &p.len, &p.prefix) >= 5) { p.r = p.n - p.k; rs_point (&p); }
+	else if (sscanf (cs, "rsseq k=%d r=%d order=%d", &p.k, &p.r, &p.prefix) == 3) { p.codec = 2; p.m = 4; p.n = p.k + p.r; p.len = p.k + 4; p.slotmode = 7; rsseq_point (&p); }
 	else if (sscanf (cs, "ldpc k=%d r=%d N1=%d seed=%d len=%d prefix=%d align=%d", &p.k, &p.r, &p.N1, &p.seed, &p.len, &p.prefix, &p.slotmode) >= 6) { p.codec = 3; p.n = p.k + p.r; ldpc_point (&p); }
 	else if (sscanf (cs, "both codec=%d m=%d k=%d r=%d N1=%d seed=%d len=%d lost=%d", &p.codec, &p.m, &p.k, &p.r, &p.N1, &p.seed, &p.len, &p.prefix) == 8) { int b = 0; const char *q = strstr (cs, " built="); if (q) b = atoi (q + 7); p.n = p.k + p.r; p.slotmode = 9 + b; both_point (&p); }
 	else if (!strncmp (cs, "hist ", 5)) {
@@ -865,6 +886,7 @@ int main (int argc, char **argv)
 				if (thorough || L % 3 == 2) add_pt (2, 4, 5, 4, 0, 0, L, al);
 			}
 		}
+		{ int o; for (n = 2; n <= 15; n++) for (k = 1; k < n; k++) for (o = 0; o < 4; o++) { if (!thorough && n > 9 && (n + k + o) % 3) continue; add_pt (2, 4, k, n - k, 0, 0, k + 4, o); PT[NPT - 1].slotmode = 7; } }	/* field / codec switches with equal (k, n-k) */
 		for (k = 1; k <= 14; k++) { add_pt (2, 4, k, 15 - k, 0, 0, 8, 0); PT[NPT - 1].slotmode = 8; }	/* every k x k minor of the m=4 reference generator is non-singular */
 		{	/* short symbols at every buffer alignment (encoder side of C07/C06) */
 			int L, al;
@@ -908,6 +930,15 @@ int main (int argc, char **argv)
 			/* low code rates with many rows: extra entries by the hundred (every r in a range, so that counts such as 256 are hit) */
 			for (k = 3; k <= 8; k++) for (N1 = 4; N1 <= 6; N1 += 2) for (r = (thorough ? 100 : 120); r <= (thorough ? 600 : 290); r++) add_pt (3, 0, k, r, N1, 1, k + 2, 0);
 			add_pt (3, 0, 56, 200, 4, 1, 58, 0); add_pt (3, 0, 100, 300, 6, 1, 102, 0); add_pt (3, 0, 100, 328, 4, 1, 102, 0); add_pt (3, 0, 128, 384, 4, 2, 130, 0); add_pt (3, 0, 200, 800, 6, 1, 202, 0);
+			{	/* the number of extra entries (2(n-k) - N1*k for low rates) next to 2^8, 2^9, 2^10 and 2^16: counters of every width */
+				static const int EX[] = {254, 255, 256, 257, 258, 510, 511, 512, 513, 514, 768, 1024, 65534, 65536, 65538};
+				int ei;
+				for (N1 = 4; N1 <= 6; N1 += 2) for (k = 2; k <= 5; k++) for (ei = 0; ei < (int) (sizeof EX / sizeof EX[0]); ei++) {
+					if ((EX[ei] + N1 * k) & 1) continue;
+					if (EX[ei] > 60000 && !(k == 4 && N1 == 4) && !(k == 3 && N1 == 6)) continue;
+					add_pt (3, 0, k, (EX[ei] + N1 * k) / 2, N1, 1 + ei % 3, k + 2, 0);
+				}
+			}
 			/* mid-range sweep: every k of a range with rates, N1 and seeds derived from k (even and odd N1 alternate) */
 			for (k = 13; k <= (thorough ? 1500 : 500); k++) {
 				unsigned sd = (unsigned) (((unsigned long long) k * 1103515245ull + 12345ull) % 2147483646ull) + 1u;
